@@ -161,6 +161,13 @@ class Interp:
         self.notes: List[str] = []
         self.top = Frame(func, None, func.qualname)
         self._bind_params(self.top, func.node, args or {}, None)
+        # a nested function analysed on its own: the parameters of the enclosing functions are parameters here too
+        anc = prog.functions.get(func.parent) if func.parent else None
+        while anc is not None:
+            for p_ in anc.params:
+                if p_ not in self.top.env and p_ not in self.top.locals:
+                    self.top.env[p_] = ("param", p_)
+            anc = prog.functions.get(anc.parent) if anc.parent else None
         st = _State()
         self._call_depth = 0
         self.exec_block(func.body, self.top, st)
@@ -546,7 +553,7 @@ class Interp:
 
     def loop_element(self, it: Term, lp: Loop) -> Term:
         """The term bound to the loop target for iterable `it`."""
-        if it[0] == "call" and it[1][0] == "name" and not it[3]:
+        if it[0] == "call" and it[1][0] == "name" and (not it[3] or (it[1][1] == "zip" and all(k == "strict" for k, _ in it[3]))):
             fn, args = it[1][1], it[2]
             if fn == "enumerate" and len(args) in (1, 2):
                 lp.domain = args[0]
